@@ -156,7 +156,7 @@ pub fn classify(msg: &str) -> &'static str {
 }
 
 /// decs of a request: the `(env …)` syntax, but order and repetitions are kept
-fn to_decs(s: &sexp::S) -> Option<Vec<(String, Type)>> {
+pub fn to_decs(s: &sexp::S) -> Option<Vec<(String, Type)>> {
     match s {
         sexp::S::L(items) => {
             let mut out = vec![];
@@ -177,7 +177,7 @@ fn to_decs(s: &sexp::S) -> Option<Vec<(String, Type)>> {
         _ => None,
     }
 }
-fn decs_sexp(decs: &[(String, Type)]) -> String {
+pub fn decs_sexp(decs: &[(String, Type)]) -> String {
     format!("(env{})", decs.iter().map(|(k, t)| format!(" ({} {})", sexp::hx(k.as_bytes()), sexp::ty(t))).collect::<String>())
 }
 
@@ -316,7 +316,7 @@ fn gen_service(ctx: &mut Ctx, g: &gen::TyGen, pg: &ProgGen, depth: u32) -> Vec<(
 }
 
 /// a program well-formed by construction
-fn gen_prog(ctx: &mut Ctx) -> (Vec<(String, Type)>, Option<Type>, gen::TyGen, Vec<String>) {
+pub fn gen_prog(ctx: &mut Ctx) -> (Vec<(String, Type)>, Option<Type>, gen::TyGen, Vec<String>) {
     let n = ctx.rng.range(0, 6) as usize;
     let names: Vec<String> = (0..n).map(|i| format!("T{i}")).collect();
     let mut kinds = vec![];
